@@ -28,7 +28,21 @@ def opaque(name):
         inst = it.ins[key]
         rty = inst["body"]["locals"][0]
         atys = inst["body"]["locals"][1:1 + inst["body"]["arg_count"]]
-        flat = tuple(it.to_bits(a, t) for a, t in zip(args, atys))
+        flat = []
+        inplace = None
+        for a, t in zip(args, atys):
+            if t.startswith("&mut ") and isinstance(a, Ptr):
+                pt = t[5:]
+                flat.append(it.to_bits(it.deref_read(a, pt), pt))
+                inplace = (a, pt)
+            else:
+                flat.append(it.to_bits(a, t))
+        flat = tuple(flat)
+        if inplace is not None:
+            a, pt = inplace
+            it.deref_write(a, pt, it.from_bits(bv.ufn(name, flat, it.ty.size_bits(pt)), pt))
+            if rty == "()":
+                return Agg(())
         return it.from_bits(bv.ufn(name, flat, it.ty.size_bits(rty)), rty)
     return h
 
@@ -39,7 +53,12 @@ JH_HOOKS = {r"^jh_x86_64::compressor::ss::<": opaque("jh_ss"), r"^jh_x86_64::com
 def evaluate(f, key, kind, nbytes):
     """-> None if all accesses are inside the buffer, else a description"""
     bv.reset()
-    it = Interp(f, MODELS, hooks=JH_HOOKS if kind == "jh" else None)
+    hooks = None
+    if kind == "jh":
+        from . import check_jh
+        rs, rl = check_jh.layer_rx(f)
+        hooks = {rs: opaque("jh_ss"), rl: opaque("jh_l")}
+    it = Interp(f, MODELS, hooks=hooks)
     inst = f.instances[key]
     atys = inst["body"]["locals"][1:1 + inst["body"]["arg_count"]]
     _, dcell = bytes_cell(it, "data", nbytes)
